@@ -23,6 +23,8 @@ REPO = os.environ.get("PYVC_REPO", "/repo")
 OUT = os.environ.get("PYVC_OUT", VERIF)  # evidence/ and replays/ go here (scratch runs against seeded changes use a temp dir)
 if VERIF not in sys.path:
     sys.path.insert(0, VERIF)
+if REPO not in sys.path:
+    sys.path.insert(1, REPO)  # native readings and lemmas import the real package from the tree under check
 
 from pyvc import vc  # noqa: E402
 from pyvc.loader import Loader  # noqa: E402
